@@ -750,3 +750,78 @@ impl MemBalancerTrigger {
         self.current_heap_pages.store(new_heap, Ordering::Relaxed);
     }
 }
+
+#[cfg(feature = "verif")]
+impl FixedHeapSizeTrigger {
+    /// Verification constructor (the field is private to this module).
+    pub(crate) fn verif_new(total_pages: usize) -> Self {
+        FixedHeapSizeTrigger { total_pages }
+    }
+}
+
+/// Verification accessors: construct a `MemBalancerTrigger` standalone and feed it explicit
+/// statistics instead of the plan's page counts and `Instant`-based timers that
+/// `on_gc_start`/`on_gc_release`/`on_gc_end` collect.  The computation itself is the real
+/// `compute_new_heap_limit`.
+#[cfg(feature = "verif")]
+impl MemBalancerTrigger {
+    pub(crate) fn verif_new(min_heap_pages: usize, max_heap_pages: usize) -> Self {
+        Self::new(min_heap_pages, max_heap_pages)
+    }
+
+    /// Overwrite the four statistics of the current estimation
+    /// (`[allocation_pages, allocation_time, collection_pages, collection_time]`).
+    pub(crate) fn verif_set_current_stats(&self, cur: [f64; 4]) {
+        self.access_stats(|stats| {
+            stats.allocation_pages = cur[0];
+            stats.allocation_time = cur[1];
+            stats.collection_pages = cur[2];
+            stats.collection_time = cur[3];
+        });
+    }
+
+    /// Overwrite the four statistics of the previous estimation (same order).
+    pub(crate) fn verif_set_prev_stats(&self, prev: [Option<f64>; 4]) {
+        self.access_stats(|stats| {
+            stats.allocation_pages_prev = prev[0];
+            stats.allocation_time_prev = prev[1];
+            stats.collection_pages_prev = prev[2];
+            stats.collection_time_prev = prev[3];
+        });
+    }
+
+    /// Call the real `compute_new_heap_limit` on the trigger's own statistics, as `on_gc_end` does.
+    pub(crate) fn verif_compute_new_heap_limit(&self, live: usize, extra_reserve: usize) {
+        self.access_stats(|stats| self.compute_new_heap_limit(live, extra_reserve, stats));
+    }
+
+    /// The statement `on_gc_end` finishes with.
+    pub(crate) fn verif_clear_pending(&self) {
+        self.pending_pages.store(0, Ordering::SeqCst);
+    }
+
+    /// `(min_heap_pages, max_heap_pages, current_heap_pages, pending_pages, previous stats,
+    /// current stats)`, statistics in the order of `verif_set_current_stats`.
+    #[allow(clippy::type_complexity)]
+    pub(crate) fn verif_state(&self) -> (usize, usize, usize, usize, [Option<f64>; 4], [f64; 4]) {
+        let s = self.stats.borrow();
+        (
+            self.min_heap_pages,
+            self.max_heap_pages,
+            self.current_heap_pages.load(Ordering::SeqCst),
+            self.pending_pages.load(Ordering::SeqCst),
+            [
+                s.allocation_pages_prev,
+                s.allocation_time_prev,
+                s.collection_pages_prev,
+                s.collection_time_prev,
+            ],
+            [
+                s.allocation_pages,
+                s.allocation_time,
+                s.collection_pages,
+                s.collection_time,
+            ],
+        )
+    }
+}
